@@ -342,7 +342,8 @@ fn main() {
     engine_main("mbuilder", |ctx| {
         if let Some(r) = &ctx.args.replay {
             let v: Value = serde_json::from_str(r).unwrap();
-            if v["mode"] == "misuse" {
+            if v["mode"] == "misuse" && v.get("wrong_lengths").is_some() {
+                misuse::NS.store(v["samples"].as_u64().unwrap_or(4) as usize, std::sync::atomic::Ordering::Relaxed);
                 let env: Vec<(usize, usize)> = v["wrong_lengths"].as_array().unwrap().iter().map(|e| (e["slot"].as_u64().unwrap() as usize, e["len"].as_u64().unwrap() as usize)).collect();
                 let seq: Vec<misuse::Op> = v["ops"].as_array().unwrap().iter().map(misuse::op_parse).collect();
                 match guarded(|| misuse::run(&env, &seq)) {
@@ -350,6 +351,10 @@ fn main() {
                     Ok(Err((sig, d))) => ctx.with(|s| s.violate("C17", &sig, v.clone(), d)),
                     Err(p) => ctx.with(|s| s.violate("C17", "panic", v.clone(), p)),
                 }
+                return;
+            }
+            if v.get("accepted_invalid_specification").is_some() {
+                accepted_invalid_models(&ctx);
                 return;
             }
             if v["mode"] == "routing" {
@@ -742,7 +747,18 @@ mod misuse {
     use varpro::model::SeparableModel;
     use varpro::prelude::SeparableNonlinearModel;
 
-    pub const N: usize = 4;
+    /// number of samples of the model under test (4, 1 or 0 - an empty independent variable is accepted by the model builder)
+    pub static NS: AtomicUsize = AtomicUsize::new(4);
+    pub fn n() -> usize {
+        NS.load(Ordering::Relaxed)
+    }
+    /// a length different from n() standing in for "one less" (n = 0 has none: 3 is used)
+    fn less() -> usize {
+        if n() > 0 { n() - 1 } else { 3 }
+    }
+    fn twice() -> usize {
+        if n() > 0 { 2 * n() } else { 2 }
+    }
     pub const P: usize = 2;
     pub const GOOD: usize = usize::MAX;
     /// slots: 0 f0, 1 f1, 2 f2(invariant), 3 d f0/da, 4 d f1/db, 5 d f1/da
@@ -758,7 +774,7 @@ mod misuse {
         }
     }
     fn xv() -> DVector<f64> {
-        DVector::from_vec(vec![1.0, 2.0, 3.0, 4.0])
+        DVector::from_vec(vec![1.0, 2.0, 3.0, 4.0][..n()].to_vec())
     }
     pub fn build(env: Arc<Env>) -> SeparableModel<f64> {
         let (e0, e1, e2, e3, e4, e5) = (env.clone(), env.clone(), env.clone(), env.clone(), env.clone(), env.clone());
@@ -776,7 +792,7 @@ mod misuse {
     }
     fn ref_eval(a: &[f64]) -> DMatrix<f64> {
         let x = xv();
-        DMatrix::from_fn(N, 3, |i, j| match j {
+        DMatrix::from_fn(n(), 3, |i, j| match j {
             0 => x[i] * a[0],
             1 => x[i] * a[1] + a[0],
             _ => 1.0,
@@ -784,7 +800,7 @@ mod misuse {
     }
     fn ref_deriv(k: usize) -> DMatrix<f64> {
         let x = xv();
-        DMatrix::from_fn(N, 3, |i, j| match (k, j) {
+        DMatrix::from_fn(n(), 3, |i, j| match (k, j) {
             (0, 0) => x[i],
             (0, 1) => 1.0,
             (1, 1) => x[i],
@@ -819,10 +835,10 @@ mod misuse {
             Op::D(2),
             Op::D(3),
             Op::D(usize::MAX),
-            Op::Break(0, N - 1),
-            Op::Break(1, N + 1),
-            Op::Break(3, 0),
-            Op::Break(5, 2 * N),
+            Op::Break(0, less()),
+            Op::Break(1, n() + 1),
+            Op::Break(3, if n() == 0 { 1 } else { 0 }),
+            Op::Break(5, twice()),
             Op::Heal,
         ]
     }
@@ -907,14 +923,14 @@ mod misuse {
                     match m.eval() {
                         Ok(mat) => {
                             if !bads.is_empty() {
-                                return Err(("mis-shaped-output-accepted".into(), format!("{}: basis functions returned vectors of length {:?} instead of {} but eval() returned Ok({}x{})", at, bads, N, mat.nrows(), mat.ncols())));
+                                return Err(("mis-shaped-output-accepted".into(), format!("{}: basis functions returned vectors of length {:?} instead of {} but eval() returned Ok({}x{})", at, bads, n(), mat.nrows(), mat.ncols())));
                             }
                             let want = ref_eval(&cur);
-                            if mat.nrows() != N || mat.ncols() != 3 || mat.iter().zip(want.iter()).any(|(a, b)| a.to_bits() != b.to_bits()) {
+                            if mat.nrows() != n() || mat.ncols() != 3 || mat.iter().zip(want.iter()).any(|(a, b)| a.to_bits() != b.to_bits()) {
                                 return Err(("evaluation-changed".into(), format!("{}: eval() = {:?}, expected {:?} for parameters {:?}", at, mat.as_slice(), want.as_slice(), cur)));
                             }
                         }
-                        Err(ModelError::UnexpectedFunctionOutput { expected_length, actual_length }) if !bads.is_empty() && expected_length == N && bads.contains(&actual_length) => {}
+                        Err(ModelError::UnexpectedFunctionOutput { expected_length, actual_length }) if !bads.is_empty() && expected_length == n() && bads.contains(&actual_length) => {}
                         Err(e) => return Err((if bads.is_empty() { "valid-eval-rejected" } else { "wrong-error-for-output-length" }.into(), format!("{}: {:?} (bad lengths {:?})", at, e, bads))),
                     }
                 }
@@ -931,15 +947,15 @@ mod misuse {
                                 return Err(("derivative-index-out-of-range-accepted".into(), format!("{}: returned Ok", at)));
                             }
                             if !bads.is_empty() {
-                                return Err(("mis-shaped-output-accepted".into(), format!("{}: derivatives returned vectors of length {:?} instead of {} but the call returned Ok", at, bads, N)));
+                                return Err(("mis-shaped-output-accepted".into(), format!("{}: derivatives returned vectors of length {:?} instead of {} but the call returned Ok", at, bads, n())));
                             }
                             let want = ref_deriv(*k);
-                            if mat.nrows() != N || mat.ncols() != 3 || mat.iter().zip(want.iter()).any(|(a, b)| a.to_bits() != b.to_bits()) {
+                            if mat.nrows() != n() || mat.ncols() != 3 || mat.iter().zip(want.iter()).any(|(a, b)| a.to_bits() != b.to_bits()) {
                                 return Err(("evaluation-changed".into(), format!("{}: derivative = {:?}, expected {:?}", at, mat.as_slice(), want.as_slice())));
                             }
                         }
                         Err(ModelError::DerivativeIndexOutOfBounds { index }) if *k >= P && index == *k => {}
-                        Err(ModelError::UnexpectedFunctionOutput { expected_length, actual_length }) if *k < P && !bads.is_empty() && expected_length == N && bads.contains(&actual_length) => {}
+                        Err(ModelError::UnexpectedFunctionOutput { expected_length, actual_length }) if *k < P && !bads.is_empty() && expected_length == n() && bads.contains(&actual_length) => {}
                         Err(e) => return Err(("wrong-error-for-derivative".into(), format!("{}: {:?} (index {}, bad lengths {:?})", at, e, k, bads))),
                     }
                 }
@@ -954,24 +970,29 @@ mod misuse {
     }
 
     pub fn environments() -> Vec<Vec<(usize, usize)>> {
-        let lens = [0usize, N - 1, N + 1, 2 * N];
+        let lens: Vec<usize> = { let mut l = vec![0usize, less(), n() + 1, twice()]; l.retain(|x| *x != n()); l.sort(); l.dedup(); l };
         let mut v: Vec<Vec<(usize, usize)>> = vec![vec![]];
         for s in 0..6 {
-            for l in lens {
+            for &l in &lens {
                 v.push(vec![(s, l)]);
             }
         }
         // two cooperating wrong lengths (totals that cancel, and arbitrary pairs)
         for s1 in 0..6 {
             for s2 in (s1 + 1)..6 {
-                for (l1, l2) in [(N - 1, N + 1), (N + 1, N - 1), (0, 2 * N), (2 * N, 0)] {
+                for (l1, l2) in [(less(), n() + 1), (n() + 1, less()), (0, twice()), (twice(), 0)] {
+                    if l1 == n() || l2 == n() {
+                        continue;
+                    }
                     v.push(vec![(s1, l1), (s2, l2)]);
                 }
             }
         }
         // three at once: (0,0,3N) and (3N,0,0)
-        v.push(vec![(0, 0), (1, 0), (2, 3 * N)]);
-        v.push(vec![(0, 3 * N), (1, 0), (2, 0)]);
+        if n() > 0 {
+            v.push(vec![(0, 0), (1, 0), (2, 3 * n())]);
+            v.push(vec![(0, 3 * n()), (1, 0), (2, 0)]);
+        }
         v
     }
 }
@@ -1037,12 +1058,16 @@ pub fn mode_misuse(ctx: &Arc<Ctx>) {
         accepted_invalid_models(ctx);
     }
     let depth: usize = ctx.args.extra.get("depth").map(|s| s.parse().unwrap()).unwrap_or(if ctx.args.thorough() { 4 } else { 3 });
-    let ops = misuse::ops();
-    let envs = misuse::environments();
     let mut idx = 0u64;
     let (mut seqs, mut steps) = (0u64, 0u64);
+    let mut nenvs = 0usize;
+    for nsamples in [4usize, 1, 0] {
+    misuse::NS.store(nsamples, std::sync::atomic::Ordering::Relaxed);
+    let ops = misuse::ops();
+    let envs = misuse::environments();
+    nenvs += envs.len();
     for env in &envs {
-        for len in 1..=depth {
+        for len in 1..=(if nsamples == 4 { depth } else { depth.min(3) }) {
             let total = (ops.len() as u64).pow(len as u32);
             let mut start = 0u64;
             while start < total {
@@ -1059,7 +1084,7 @@ pub fn mode_misuse(ctx: &Arc<Ctx>) {
                         }
                         seqs += 1;
                         let r = guarded(|| misuse::run(env, &seq));
-                        let case = || json!({"mode": "misuse", "wrong_lengths": env.iter().map(|(s, l)| json!({"slot": s, "len": l})).collect::<Vec<_>>(), "ops": seq.iter().map(misuse::op_json).collect::<Vec<_>>()});
+                        let case = || json!({"mode": "misuse", "samples": nsamples, "wrong_lengths": env.iter().map(|(s, l)| json!({"slot": s, "len": l})).collect::<Vec<_>>(), "ops": seq.iter().map(misuse::op_json).collect::<Vec<_>>()});
                         match r {
                             Ok(Ok(n)) => steps += n,
                             Ok(Err((sig, d))) => ctx.with(|s| s.violate("C17", &sig, case(), d)),
@@ -1074,12 +1099,14 @@ pub fn mode_misuse(ctx: &Arc<Ctx>) {
             }
         }
     }
+    }
+    let envs_len = nenvs;
     ctx.with(|s| {
         s.add("transitions", steps);
         s.add("evaluations", seqs);
         s.add("traces_validated", seqs);
         s.add("distinct_nontrivial", seqs);
-        if ctx.args.shard == 0 { s.add("states", 3 * envs.len() as u64); } // reference states x environments: last accepted parameter vector in {initial, alpha1, alpha2}
+        if ctx.args.shard == 0 { s.add("states", 5 * envs_len as u64); } // reference states x environments: last accepted parameter vector in {initial, alpha1, alpha2}
         s.maxes.insert("depth_completed".into(), depth as f64);
     });
 }
